@@ -48,6 +48,7 @@ LINES = [
     ["retry", "COLON", "d0", "LF"],                       # a retry of zero is a valid retry field
     ["retry", "COLON", "SP", "d0", "d0", "LF"],
     ["COLON", "x", "LF"],
+    ["COLON", "x", "CR"],                                 # a comment line ended by a bare CR (mixed line ends inside one block)
     ["datax", "COLON", "x", "LF"],
     ["LF"],
     ["CR", "LF"],
